@@ -46,6 +46,10 @@ type Controller struct {
 	events  chan Event
 }
 
+// StuckAfter bounds one section of a controlled thread (only reached when a thread blocks on a
+// mutex held by a thread that died inside its section); the driver may enlarge it.
+var StuckAfter = 30 * time.Second
+
 // Ctl is the installed controller (nil: plain sync behaviour).
 var Ctl *Controller
 
@@ -116,7 +120,7 @@ func (c *Controller) Step(tid int) Event {
 	select {
 	case ev := <-c.events:
 		return ev
-	case <-time.After(5 * time.Second):
+	case <-time.After(StuckAfter):
 		return Event{tid, "stuck"}
 	}
 }
